@@ -138,6 +138,21 @@ def run(R):
         else:
             R.violation("C16.numcmp", key, "Value ordered comparison in evaluate without INT->REAL conversion of both operand positions "
                                            "on a path to it: an INT and a REAL are ordered by enum variant", [c.loc()])
+    f2i = [(i, s_) for i, s_ in ev.stmts() if s_["rv"]["k"] == "cast" and s_["rv"]["ck"] == "FloatToInt"]
+    for i, s_ in f2i:
+        if any(c.bb in ev.reachable_from(i) for c in cmp_calls) and any(ev.dominates(sw_, i) for sw_ in
+                                                                      [c.bb for c in ev.calls if False] or [0]):
+            # only casts inside the arm that holds the comparisons (dominated by the arm's entry)
+            arm_entries = set()
+            for c in cmp_calls:
+                for gsw, lab, tgt in F.guards_dominating(ev, c.bb):
+                    info = F.switch_info(ev, gsw)
+                    if info and info[0] == "discr" and (info[1].get("adt") or "").endswith("model::ExpressionTree"):
+                        arm_entries.add(tgt)
+            if any(ev.dominates(t_, i) for t_ in arm_entries):
+                R.violation("C16.numcmp", "evaluate|real-to-int",
+                            "a REAL operand is converted to INT (`as i64`, saturating) before a comparison: reals beyond the i64 range collapse to "
+                            "i64::MAX/MIN, so equality is not transitive and numbers are not ordered by value", ["%s:%d" % (ev.file, s_["line"])])
     R.floor("C16.numcmp", 1)
     R.floor("C16.closure", 5)
     R.assume("std, chrono::DateTime<Local> and TimeDelta implement lawful, mutually consistent Eq/Ord/Hash")
